@@ -387,7 +387,7 @@ def step (w : World) (line : String) : World × String :=
     | [ia, ha, ib, hb] =>
       (match parseInstSpec ia, (ints? ha).bind parseHist, parseInstSpec ib, (ints? hb).bind parseHist with
        | some a, some h1, some b, some h2 =>
-         let r := schedEq (schedObjs a (replayHist a h1)) (schedObjs b (replayHist b h2))
+         let r := schedEq (opObjs a, schedObjs a (replayHist a h1)) (opObjs b, schedObjs b (replayHist b h2))
          (w, s!"{r} {!r}")
        | _, _, _, _ => (w, "bad-op"))
     | _ => (w, "bad-op")
@@ -399,7 +399,7 @@ def step (w : World) (line : String) : World × String :=
        | some a, some h1, some kk =>
          let x := schedObjs a (replayHist a h1)
          let y := x.map fun ms => ms.map fun o => { o with start := o.start + kk }
-         let r := schedEq x y
+         let r := schedEq (opObjs a, x) (opObjs a, y)
          (w, s!"{r} {!r}")
        | _, _, _ => (w, "bad-op"))
     | _ => (w, "bad-op")
